@@ -191,6 +191,7 @@ func checkC02(p *Program, r *Reporter) {
 	sentinelGuards(p, r)
 	sentinelGuardShape(p, r)
 	offsetAlwaysRule(p, r)
+	offsetArgRule(p, r)
 	searchConvention(p, r)
 }
 
